@@ -136,6 +136,22 @@ package fix
 //@   forall j int
 //@   ensures[C17,C02] @own len(res) == len(g.items) && imp(0 <= j && j < len(res), nth(res, j) == nth(g.items, j))
 
+// NewMessage establishes the framing part of msgWF: four distinct key-values with the given
+// tags, BeginString and MsgType populated with the given texts, CheckSum a String
+//@ func NewMessage(beginStringTag string, bodyLengthTag string, checkSumTag string, msgTypeTag string, beginString string, msgType string) (res *Message)
+//@   ensures[C01,C17] @framing res != nil && fresh(res) && res.beginString != nil && res.bodyLength != nil && res.msgType != nil && res.checkSum != nil && res.bodyLength != res.beginString && res.bodyLength != res.msgType && res.checkSum != res.beginString && res.checkSum != res.msgType && res.checkSum != res.bodyLength
+//@   ensures[C01,C17] @tags res.beginString.Key == beginStringTag && res.bodyLength.Key == bodyLengthTag && res.msgType.Key == msgTypeTag && res.checkSum.Key == checkSumTag
+//@   ensures[C01,C17] @values res.checkSum.Value != nil && istype(res.checkSum.Value, *String) && istype(res.beginString.Value, *String) && istype(res.msgType.Value, *String) && res.beginString.Value.(*String).value == beginString && res.beginString.Value.(*String).valid && res.msgType.Value.(*String).value == msgType && res.msgType.Value.(*String).valid
+//@   ensures[C01,C17] @distinctvalues res.checkSum.Value != res.beginString.Value && res.checkSum.Value != res.msgType.Value
+//@ func (kv *KeyValue) Load() (res Value)
+//@   requires kv != nil
+//@   pure
+//@   ensures[C17,C02] res == kv.Value
+//@ func (kv *KeyValue) Set(value Value)
+//@   requires kv != nil
+//@   modifies kv.Value
+//@   ensures[C17,C02] kv.Value == value
+
 // ---- accessors the generated setters and getters are built from (C17, C02) ------------
 //@ func (c *Component) Set(id int, v Item)
 //@   requires c != nil && 0 <= id && id < len(c.items)
